@@ -330,6 +330,113 @@ impl C16 {
     }
 }
 
+const TERM: Addr = (Ipv4Addr::new(0, 0, 0, 0), 0u16);
+
+/// a listing of 1-4 pages that ends properly (terminator as last entry, as only entry, or an empty page)
+fn gen_complete_listing(rng: &mut Rng) -> Vec<Vec<Addr>> {
+    let n_pages = rng.usize(1, 4);
+    let ending = rng.below(3);
+    let mut pages: Vec<Vec<Addr>> = Vec::new();
+    for k in 0 .. n_pages {
+        let n = match rng.below(4) {
+            0 => 1,
+            1 => 230,
+            _ => rng.usize(1, 30),
+        };
+        let mut e: Vec<Addr> = (0 .. n).map(|_| (Ipv4Addr::new(rng.range(1, 223) as u8, rng.u8(), rng.u8(), rng.u8()), rng.range(1, 65535) as u16)).collect();
+        if k + 1 == n_pages {
+            match ending {
+                0 => e.push(TERM),
+                1 => e = vec![TERM],
+                _ => e = vec![],
+            }
+        }
+        pages.push(e);
+    }
+    pages
+}
+
+/// reference paging: (addresses, seeds of the requests, complete)
+fn reference_paging(pages: &[Vec<Addr>]) -> (Vec<Addr>, Vec<String>, bool) {
+    let mut expected: Vec<Addr> = Vec::new();
+    let mut seeds = vec!["0.0.0.0:0".to_string()];
+    for p in pages {
+        if p.is_empty() {
+            return (expected, seeds, true);
+        }
+        expected.extend(p.iter().cloned());
+        let last = *p.last().unwrap();
+        if last == TERM {
+            expected.pop();
+            return (expected, seeds, true);
+        }
+        let seed = format!("{}:{}", last.0, last.1);
+        if seeds.last() == Some(&seed) {
+            return (expected, seeds, true);
+        }
+        seeds.push(seed);
+    }
+    (expected, seeds, false)
+}
+
+impl C16 {
+    /// several complete queries on one ValveMasterServer instance: each starts from the 0.0.0.0:0 seed again
+    fn reuse_case(&self, cx: &mut Cx) {
+        let k = cx.rng.usize(2, 3);
+        let mut listings = Vec::new();
+        let mut served: Vec<Vec<Addr>> = Vec::new();
+        for _ in 0 .. k {
+            let pages = gen_complete_listing(&mut cx.rng);
+            let (exp, seeds, complete) = reference_paging(&pages);
+            debug_assert!(complete);
+            served.extend(pages[.. seeds.len().min(pages.len())].iter().cloned());
+            listings.push((exp, seeds));
+        }
+        let server = PagesServer { pages: served.iter().map(|p| page(p)).collect(), requests: vec![] };
+        let regions: Vec<(Region, u8)> = (0 .. k).map(|_| REGIONS[cx.rng.below(9) as usize]).collect();
+        let a = addr();
+        let regs = regions.clone();
+        let run = run_with(server, DEFAULT_STEP_LIMIT, move || {
+            ValveMasterServer::new(&a).and_then(|mut m| {
+                let mut out = Vec::new();
+                for (r, _) in &regs {
+                    out.push(m.query(*r, None)?);
+                }
+                Ok(out)
+            })
+        });
+        cx.eval();
+        let reqs = run.server.borrow().requests.clone();
+        let seeds: Vec<String> = reqs.iter().map(|r| parse_request(r).map(|x| x.1).unwrap_or_else(|e| format!("<unparsable: {e}>"))).collect();
+        let exp_seeds: Vec<String> = listings.iter().flat_map(|l| l.1.iter().cloned()).collect();
+        let exp_regions: Vec<u8> = listings.iter().zip(&regions).flat_map(|(l, r)| std::iter::repeat(r.1).take(l.1.len())).collect();
+        let detail = |what: String| json!({"what": what, "queries_on_one_instance": k, "pages_served": served.iter().map(|p| p.len()).collect::<Vec<_>>(), "requests": reqs.iter().map(|r| String::from_utf8_lossy(r).to_string()).collect::<Vec<_>>()});
+        match &run.outcome {
+            Outcome::Panicked(p) => cx.violation(format!("C16 panic at {} msg=\"{}\"", p.loc, norm_msg(&p.msg)), || detail(p.msg.clone())),
+            Outcome::StepLimit { .. } => cx.violation("C16 paging step-limit", || detail("step".into())),
+            Outcome::Returned(Err(e)) => cx.violation(format!("C16 paging reused-instance complete-listing-failed kind={}", kind_name(&e.kind)), || detail(format!("seeds {seeds:?} expected {exp_seeds:?}"))),
+            Outcome::Returned(Ok(lists)) => {
+                for (i, (list, (exp, _))) in lists.iter().zip(&listings).enumerate() {
+                    let got: Vec<Addr> = list.iter().map(|(ip, p)| (match ip { IpAddr::V4(v) => *v, _ => Ipv4Addr::new(255, 255, 255, 255) }, *p)).collect();
+                    if &got != exp {
+                        cx.violation("C16 paging reused-instance addresses-differ", || detail(format!("query {i}: got {} expected {}", got.len(), exp.len())));
+                        return;
+                    }
+                }
+                if seeds != exp_seeds {
+                    cx.violation("C16 paging reused-instance wrong-seed", || detail(format!("seeds {seeds:?} expected {exp_seeds:?}")));
+                } else if reqs.iter().map(|r| r.get(1).copied().unwrap_or(0)).collect::<Vec<_>>() != exp_regions {
+                    cx.violation("C16 paging reused-instance wrong-region", || detail("region".into()));
+                } else {
+                    cx.shape(&format!("reuse={k}"));
+                    cx.nontrivial(hash64(&reqs.concat()) ^ 0x2e05e);
+                    cx.count("paging-reuse-ok");
+                }
+            }
+        }
+    }
+}
+
 fn seq_from(mut code: u64, len: usize) -> Vec<(usize, usize)> {
     (0 .. len)
         .map(|_| {
@@ -352,7 +459,7 @@ impl C16 {
 impl Check for C16 {
     fn id(&self) -> &'static str { "C16" }
     fn rule(&self) -> String {
-        "filters: all insertion sequences of length <= 2 (quick; 2 970) / <= 3 (thorough; 160 434) over 18 filter kinds x {insert, insert_nand, insert_nor} with sampled values and regions, plus sampled longer sequences; the request recorded by the transport is parsed by a reference parser of the Master Server Query Protocol grammar and (region, seed, plain, NAND, NOR groups) must equal a reference model of the builder (later insert of a kind replaces the earlier). paging: histories of 1-6 pages x 1-230 entries ending by a terminator as last entry / only entry / an empty page / never: returned list = concatenation without the terminator, request k+1 seeded with the last address of page k, nothing requested after the terminator, silence before a terminator is a receive error. non-trivial = parse + comparison passed; distinct by request bytes".into()
+        "filters: all insertion sequences of length <= 2 (quick; 2 970) / <= 3 (thorough; 160 434) over 18 filter kinds x {insert, insert_nand, insert_nor} with sampled values and regions, plus sampled longer sequences; the request recorded by the transport is parsed by a reference parser of the Master Server Query Protocol grammar and (region, seed, plain, NAND, NOR groups) must equal a reference model of the builder (later insert of a kind replaces the earlier). paging: histories of 1-6 pages x 1-230 entries ending by a terminator as last entry / only entry / an empty page / never: returned list = concatenation without the terminator, request k+1 seeded with the last address of page k, nothing requested after the terminator, silence before a terminator is a receive error; 2-3 complete queries on one service instance each start again from the 0.0.0.0:0 seed. non-trivial = parse + comparison passed; distinct by request bytes".into()
     }
     fn assumptions(&self) -> Vec<String> { vec!["filter keys and grammar as in DESIGN.md Appendix A.9".into(), "domain: string values without backslash/NUL, tags without comma; HasTags(vec![]) and a terminator in the middle of a page are observe-only".into()] }
     fn total_cases(&self, tier: Tier) -> u64 { self.n_seq(tier) + self.n_random(tier) }
@@ -378,6 +485,8 @@ impl Check for C16 {
             let s: Vec<(usize, usize)> = (0 .. len).map(|_| (cx.rng.below(18) as usize, cx.rng.below(3) as usize)).collect();
             cx.count("seq-longer");
             self.filter_case(cx, &s);
+        } else if (idx - self.n_seq(cx.tier)) % 8 == 7 {
+            self.reuse_case(cx);
         } else {
             self.paging_case(cx);
         }
@@ -392,5 +501,5 @@ impl Check for C16 {
         }
         Ok(())
     }
-    fn extra_coverage(&self, tier: Tier, m: &Stats) -> Value { json!({"sequences_len1": m.counters.get("seq-len1"), "sequences_len2": m.counters.get("seq-len2"), "sequences_len3": m.counters.get("seq-len3"), "len3_exhaustive": tier == Tier::Thorough, "paging_histories_ok": m.counters.get("paging-ok")}) }
+    fn extra_coverage(&self, tier: Tier, m: &Stats) -> Value { json!({"sequences_len1": m.counters.get("seq-len1"), "sequences_len2": m.counters.get("seq-len2"), "sequences_len3": m.counters.get("seq-len3"), "len3_exhaustive": tier == Tier::Thorough, "paging_histories_ok": m.counters.get("paging-ok"), "reused_instance_histories_ok": m.counters.get("paging-reuse-ok")}) }
 }
